@@ -12,7 +12,7 @@ from typing import Any
 import z3
 
 from . import solve
-from .sym import (EngineUnsupported, VInt, VBool, VStr, VNone, VSeq, VTuple, VRec, VOpt, VRef, VFunc, VClass,
+from .sym import (EngineUnsupported, VInt, VBool, VStr, VNone, VSeq, VTuple, VRec, VOpt, VRef, VFunc, VClass, VMap, TMap,
                   VBuiltin, VPy, Val, ListCell, DictCell, ObjCell, IterCell, TInt, TBool, TStr, TSeq, TOpt, TTuple,
                   TRec, Ty, T_INT, T_BOOL, T_STR, STR, INT, BOOL, mk_str, ival, fresh, fresh_val, to_term,
                   from_term, ty_of_val, new_loc, concrete_str, is_space, is_blank_not_lf)
@@ -523,6 +523,8 @@ class Registry:
                 if isinstance(inner, Ty):
                     return TOpt(inner)
                 return ("opt", inner)
+            if fn == "MapOf":
+                return TMap(self._as_ty(self.parse_type(tx.args[0])), self._as_ty(self.parse_type(tx.args[1])))
             if fn == "Raw":      # an object of the named class before __init__ has run (no fields yet)
                 return ("raw", tx.args[0].value)
             if fn == "PyTuple":
@@ -599,12 +601,21 @@ class Registry:
         if name in SPEC_BUILTINS:
             return VBuiltin("spec:" + name)
         if name in self.spec_consts:
+            v = self.spec_consts[name]
+            if isinstance(v, ast.Constant) and isinstance(v.value, str):
+                return VStr(mk_str(v.value))
+            if isinstance(v, ast.Constant) and isinstance(v.value, int):
+                return VInt(ival(v.value))
             return None
         if name in ("True", "False"):
             return VBool(z3.BoolVal(name == "True"))
         return None
 
     def py_attr(self, ex, v: VPy, attr):
+        if isinstance(v.obj, tuple) and v.obj[0] == "regex":
+            return VBuiltin("regex." + attr, recv=v)
+        if isinstance(v.obj, tuple) and v.obj[0] == "rematch":
+            return VBuiltin("rematch." + attr, recv=v)
         return VBuiltin(f"{v.obj}.{attr}")
 
     def class_attr_value(self, ex, st, cls, attr, node):
@@ -968,6 +979,12 @@ class Registry:
                     self.coerce_to_view(ex, st, env[pn], pty)
                     v = env[pn]
                     # python-level list / tuple literals passed for an immutable sequence parameter become typed values
+                    if isinstance(pty, Ty) and not isinstance(pty, TOpt) and isinstance(v, VOpt) and v.ty.elem == pty:
+                        # an optional value passed where the callee requires a definite one: None would be a TypeError
+                        ex.oblige(st, f"safety[TypeError:None passed as {pn}@{getattr(node, 'lineno', 0)}]",
+                                  z3.Not(v.ty.is_none(v.t)), lineno=getattr(node, 'lineno', 0))
+                        env[pn] = from_term(v.ty.val(v.t), v.ty.elem)
+                        v = env[pn]
                     if isinstance(pty, TSeq) and (isinstance(v, VTuple) or (
                             isinstance(v, VRef) and isinstance(st.cell(v), ListCell) and st.cell(v).elem is None)):
                         env[pn] = ex.freeze(st, v, pty)
@@ -1119,7 +1136,7 @@ class Registry:
     def havoc_value(self, ex, st, v, name):
         if v is VNone:
             return VNone
-        if isinstance(v, (VInt, VBool, VStr, VSeq, VRec, VOpt)):
+        if isinstance(v, (VInt, VBool, VStr, VSeq, VRec, VOpt, VMap)):
             return fresh_val(ty_of_val(v), "h_" + name.replace(".", "_"))
         if isinstance(v, VTuple):
             return VTuple([self.havoc_value(ex, st, i, name) for i in v.items])
@@ -1736,7 +1753,7 @@ SPEC_BUILTINS = {"implies", "iff", "lstrip", "rstrip", "strip", "lead_ws", "trai
                  "itos", "seq_empty", "iter_pos", "is_space", "all_space", "ite", "length", "strip_crlf",
                  "replace_all", "join_lf", "is_none", "opt_val", "some", "none_of", "typed", "rec_has",
                  "strip_blank", "startswith", "endswith", "split_head", "first_index", "char_at", "contains_ws",
-                 "split_off", "split_on", "first_ws_hash"}
+                 "split_off", "split_on", "first_ws_hash", "typed_is_str", "re_matches", "re_group1"}
 
 
 # ---------------------------------------------------------------------------------------------
